@@ -3,7 +3,7 @@
    input, computed by the real go/types in the harness; the field-by-field agreement of the whole
    dump with go/types is decided by the correspondence run, the theorems below settle the parts
    that are gengo's own logic: name splitting, the builtin table, kinds, generic origins). *)
-Require Import Gengo.Base.Str Gengo.Model.Universe Gengo.Proofs.UniverseProofs Gengo.Proofs.CanonProofs Gengo.Proofs.FaithfulProofs Gengo.Proofs.AliasProofs Gengo.Proofs.IndepProofs Gengo.Proofs.MethodsProofs Gengo.Proofs.ExactProofs Gengo.Proofs.GenericProofs.
+Require Import Gengo.Base.Str Gengo.Base.StrOrder Gengo.Model.Universe Gengo.Proofs.UniverseProofs Gengo.Proofs.CanonProofs Gengo.Proofs.FaithfulProofs Gengo.Proofs.AliasProofs Gengo.Proofs.IndepProofs Gengo.Proofs.MethodsProofs Gengo.Proofs.ExactProofs Gengo.Proofs.GenericProofs Gengo.Proofs.ImportsProofs.
 
 (* tcNameToName / goNameToName: a spelling that is not an anonymous type's (and, for v2, carries no
    type arguments) is cut at its LAST dot: package path before it, a dot-free type name after it *)
@@ -170,6 +170,21 @@ Theorem C01_generic_description_independent_of_first_use : forall v2 p, named_ok
 Proof. exact generic_entry_independent. Qed.
 Print Assumptions C01_generic_description_independent_of_first_use.
 
+(* "package path and name, direct imports": after ANY load that succeeds, every requested package of a
+   program whose requested packages have distinct paths is on record under its path -- there is such a
+   record, and every record filed under that path agrees -- with exactly the type checker's direct
+   imports (in sorted order) and the type checker's package name; declarations filed under it by other
+   packages, records created because something imports it, and packages loaded later change neither *)
+Theorem C01_direct_imports_and_package_name_faithful : forall v2 p fuel u0 pkgs w g,
+  NoDup (map g_path (filter g_requested pkgs)) -> In g pkgs -> g_requested g = true ->
+  build_from v2 p fuel u0 pkgs = Some w ->
+  ((exists r, In r (w_pkgs w) /\ pr_path r = g_path g) /\
+   forall r, In r (w_pkgs w) -> pr_path r = g_path g -> pr_imports r = sort_strs (g_imports g)) /\
+  ((exists r, In r (w_pkgs w) /\ pr_path r = g_path g) /\
+   forall r, In r (w_pkgs w) -> pr_path r = g_path g -> pr_name r = g_name g).
+Proof. exact imports_and_name_faithful. Qed.
+Print Assumptions C01_direct_imports_and_package_name_faithful.
+
 (* non-vacuity: p.T = struct{ A int8; B *p.T } *)
 Definition ex_prog : prog :=
   [(1, (s "p.T", SNamed 1 2 [] [] None));
@@ -184,3 +199,17 @@ Example C01_example :
                      Some [(s "A", false, [], ([], s "int8")); (s "B", false, s "json:""b""", ([], s "*p.T"))]
   | None => False end.
 Proof. vm_compute. repeat split. Qed.
+
+(* non-vacuity of the imports theorem: two requested packages, the second imports the first and a third *)
+Example C01_imports_example :
+  let pkgs := [ {| g_path := s "q"; g_name := s "q"; g_requested := true; g_imports := [s "p"; s "lib/z"; s "a"]; g_scope := [] |};
+                {| g_path := s "p"; g_name := s "pp"; g_requested := true; g_imports := []; g_scope := [OType 1%N] |} ] in
+  NoDup (map g_path (filter g_requested pkgs)) /\
+  match build_from true ex_prog 10 {| objs := []; tkeys := [] |} pkgs with
+  | Some w => map (fun r => (pr_path r, pr_name r, pr_imports r)) (w_pkgs w) =
+              [(s "q", s "q", [s "a"; s "lib/z"; s "p"]); (s "p", s "pp", []); (s "lib/z", [], []); (s "a", [], [])]
+  | None => False end.
+Proof.
+  split; [|vm_compute; reflexivity].
+  cbn [filter g_requested map g_path]. repeat constructor; cbn; intuition discriminate.
+Qed.
